@@ -123,6 +123,9 @@ func c18Configs(tier string) []c18Cfg {
 	// a sink that calls EmitSync on its own instance (refused or served, never parked until Stop's grace timer fires)
 	out = append(out, c18Cfg{Kind: "direct", Strategy: "drop", Threads: "PS", Sink: "reenter-emitsync"}, c18Cfg{Kind: "analytic", Strategy: "block", Threads: "PS", Sink: "reenter-emitsync"},
 		c18Cfg{Kind: "direct", Strategy: "expand", Threads: "PSG", Sink: "reenter-emitsync"})
+	// slow asynchronous sinks behind a saturated sink pool: Stop is a barrier for invocations run inline too
+	out = append(out, c18Cfg{Kind: "direct", Strategy: "drop", Threads: "EEES", Sink: "slow-async"}, c18Cfg{Kind: "direct", Strategy: "block", Threads: "PES", Sink: "slow-async"},
+		c18Cfg{Kind: "counting", Strategy: "drop", Threads: "PS", Sink: "slow-async", Rows: 4})
 	// a row whose evaluation panics inside a user function: later rows must still be processed and delivered, Stop
 	// must return without its grace timer, nothing escapes to the caller of Emit / EmitSync
 	for _, k := range []string{"direct", "direct-where", "analytic", "cep", "counting", "global"} {
@@ -153,6 +156,8 @@ type c18Obs struct {
 	emitAfterStopSinks int
 	panicked       bool
 	syncResults    int
+	inSink            int
+	sinkRunningAtStop int
 }
 
 func c18Run(cfg c18Cfg) explore.RunFunc {
@@ -210,7 +215,19 @@ func c18Run(cfg c18Cfg) explore.RunFunc {
 					sched.Recv(gateCh) // released (closed) by the stopping thread after Stop has returned
 				}
 			}
-			if cfg.Sink == "panic-async" {
+			if cfg.Sink == "slow-async" {
+				// asynchronous sinks only, each invocation takes 50 ms: with a pool of one worker and a queue of one the
+				// engine runs further invocations inline on the goroutine that produced the result
+				s.AddSink(func(rows []map[string]any) {
+					o.sinkCalls++
+					o.inSink++
+					if stopReturned {
+						o.sinkAfterStop++
+					}
+					vtime.Sleep(50 * vtime.Millisecond)
+					o.inSink--
+				})
+			} else if cfg.Sink == "panic-async" {
 				// the same body registered as an asynchronous sink (runs on the sink worker pool)
 				s.AddSink(func(rows []map[string]any) {
 					o.sinkCalls++
@@ -254,6 +271,7 @@ func c18Run(cfg c18Cfg) explore.RunFunc {
 						s.Stop()
 						o.stopVirtualNs = sched.Cur().Elapsed() - t0
 						stopReturned = true
+						o.sinkRunningAtStop = o.inSink
 						if cfg.Sink == "gate" && !gateOpen {
 							gateOpen = true
 							sched.Close(gateCh)
@@ -352,6 +370,9 @@ func c18Oracle(cfg c18Cfg, res *sched.Result, o *c18Obs) *explore.Failure {
 		if o.sinkCalls < want {
 			return fail("rows-after-panicking-row-not-delivered", fmt.Sprintf("one row per producer made a user function panic; the sink was invoked %d time(s), %d ordinary rows were offered and every one forms its own batch", o.sinkCalls, want))
 		}
+	}
+	if o.sinkRunningAtStop > 0 {
+		return fail("sink-still-running-when-stop-returned", fmt.Sprintf("%d sink invocation(s) (50 ms each, well inside the grace period) were still in progress when Stop returned", o.sinkRunningAtStop))
 	}
 	if o.sinkAfterStop > 0 {
 		return fail("sink-after-stop", fmt.Sprintf("%d sink invocation(s) after Stop had returned", o.sinkAfterStop))
